@@ -13,20 +13,15 @@ import re
 
 def tables(ns):
     ExtractionError, read, fn_body, block_after = ns["ExtractionError"], ns["read"], ns["fn_body"], ns["block_after"]
+    fn_params, rustcanon = ns["fn_params"], ns["rustcanon"]
 
     def q(x):
         return '"' + x.replace("\\", "\\\\").replace('"', '\\"') + '"'
 
-    def parse_from_body(src, table, rel):
-        """body of `fn parse_from(Unparsed { directive, args }: &Unparsed, …) -> Self { … }` (the signature has braces)"""
-        m = re.search(r"\bfn\s+parse_from\b", src)
-        r = re.search(r"->\s*Self\s*", src[m.end():]) if m else None
-        if not r:
-            raise ExtractionError(table, rel, "fn parse_from(…) -> Self not found")
-        b = block_after(src, m.end() + r.end())
-        if b is None:
-            raise ExtractionError(table, rel, "body of parse_from not found")
-        return b
+    def parse_from_body(src, table, rel, ty):
+        """body of `fn parse_from(Unparsed { directive, args }: &Unparsed, …) -> Self { … }` of `impl <ty>` (the signature has braces;
+        the return type may be spelled `Self` or `<ty>`)"""
+        return fn_body(src, "parse_from", table, rel, ty)
 
     # ------------------------------------------------------------------------------------------
     # Primitives
@@ -65,7 +60,7 @@ def tables(ns):
         if not variants or not all(re.fullmatch(r"\w+", v) for v in variants):
             raise ExtractionError(T, rel, "enum Primitive has an unexpected shape")
         # is_integral: matches!(self, Self::A | Self::B ...)
-        body = fn_body(src, "is_integral", T, rel)
+        body = fn_body(src, "is_integral", T, rel, r"Primitive")
         mm = re.search(r"matches!\s*\(\s*self\s*,", body)
         if not mm:
             raise ExtractionError(T, rel, "is_integral is not a `matches!(self, …)`")
@@ -76,24 +71,33 @@ def tables(ns):
             raise ExtractionError(T, rel, "is_integral: unexpected pattern " + inner.strip()[:60])
         integral = [x[6:] for x in integral]
         # numeric_bounds
-        body = fn_body(src, "numeric_bounds", T, rel)
+        body = fn_body(src, "numeric_bounds", T, rel, r"Primitive")
         consts = {}
-        for cm in re.finditer(r"const\s+(\w+)\s*:\s*i128\s*=\s*([^;]+);", body):
+        # named bounds: `const X: i128 = ..;` in the function or anywhere else in the file (module level, an impl's associated const)
+        for cm in list(re.finditer(r"const\s+(\w+)\s*:\s*i128\s*=\s*([^;]+);", src.replace(body, ""))) + \
+                list(re.finditer(r"const\s+(\w+)\s*:\s*i128\s*=\s*([^;]+);", body)):
             consts[cm.group(1)] = int_expr(T, rel, cm.group(2), consts)
+            consts["Self::" + cm.group(1)] = consts[cm.group(1)]
         mm = re.search(r"match\s+self\s*", body)
         if not mm:
             raise ExtractionError(T, rel, "numeric_bounds: `match self` not found")
         arms_src = block_after(body, mm.end())
         bounds = {}
         n_arms = len(re.findall(r"=>", arms_src))
-        for am in re.finditer(r"Self::(\w+)\s*=>\s*Some\(\(\s*([^,()]+?)\s*,\s*([^,()]+?)\s*\)\)", arms_src):
-            bounds[am.group(1)] = (int_expr(T, rel, am.group(2), consts), int_expr(T, rel, am.group(3), consts))
+        # an arm is `Self::A => Some((lo, hi))` or an or-pattern `Self::A | Self::B => ..` for variants with the same bounds
+        n_understood = 0
+        for am in re.finditer(r"((?:\|?\s*Self::\w+\s*)+)=>\s*Some\(\(\s*([^,()]+?)\s*,\s*([^,()]+?)\s*,?\s*\)\)", arms_src):
+            n_understood += 1
+            for v in re.findall(r"Self::(\w+)", am.group(1)):
+                if v in bounds:
+                    raise ExtractionError(T, rel, f"numeric_bounds: two arms for {v}")
+                bounds[v] = (int_expr(T, rel, am.group(2), consts), int_expr(T, rel, am.group(3), consts))
         if not re.search(r"_\s*=>\s*None", arms_src):
             raise ExtractionError(T, rel, "numeric_bounds: `_ => None` arm not found")
-        if n_arms != len(bounds) + 1:
-            raise ExtractionError(T, rel, f"numeric_bounds: {n_arms} arms in source, {len(bounds) + 1} understood")
+        if n_arms != n_understood + 1:
+            raise ExtractionError(T, rel, f"numeric_bounds: {n_arms} arms in source, {n_understood + 1} understood")
         # keyword: fn kind { Self::X => "kw" }
-        body = fn_body(src, "kind", T, rel)
+        body = fn_body(src, "kind", T, rel, r"Element\s+for\s+Primitive")
         kws = dict(re.findall(r"Self::(\w+)\s*=>\s*\"(\w+)\"", body))
         for v in variants:
             if v not in kws:
@@ -221,10 +225,12 @@ end Slicec.Gen
         # the exclusion in Allow::parse_from
         rel4 = "slicec/src/grammar/attributes/allow.rs"
         asrc = read(repo, rel4, T)
-        body = parse_from_body(asrc, T, rel4)
-        excluded = re.findall(r"if\s+arg\s*==\s*\"(\w+)\"\s*\{\s*is_valid\s*=\s*false", body)
-        if not re.search(r"is_valid\s*=\s*Lint::ALLOWABLE_LINT_IDENTIFIERS\.contains\(&arg\.as_str\(\)\)", body):
+        # canonical form (rustcanon.py): the loop variable and the validity flag are `$n`, whatever the function calls them
+        body = rustcanon.canon(parse_from_body(asrc, T, rel4, r"Allow"), fn_params(asrc, "parse_from", T, rel4, r"Allow"))
+        vm = re.search(r"let mut (\$\d+)=Lint::ALLOWABLE_LINT_IDENTIFIERS\.contains\(&(\$\d+)\.as_str\(\)\);", body)
+        if not vm:
             raise ExtractionError(T, rel4, "Allow::parse_from does not test ALLOWABLE_LINT_IDENTIFIERS.contains")
+        excluded = re.findall(r"if " + re.escape(vm.group(2)) + r"==\"(\w+)\"\{" + re.escape(vm.group(1)) + r"=false", body)
         text = f"""-- GENERATED by translator/tables_c04.py from {rel}, {rel2}, {rel3}, {rel4} — do not edit.
 namespace Slicec.Gen
 
@@ -261,7 +267,7 @@ end Slicec.Gen
             raise ExtractionError(T, relp, "patch_attributes!(prefix, kinds…) invocation not found")
         prefix = pm.group(1)
         patched = [x.strip() for x in pm.group(2).split(",") if x.strip()]
-        if not re.search(r"directive\.split_once\(\"::\"\)\.map_or\(\"\",\s*\|\(p,\s*_\)\|\s*p\)", psrc) or \
+        if not re.search(r"directive\.split_once\(\"::\"\)\.map_or\(\"\",\s*\|\((\w+),\s*_\)\|\s*\1\)", psrc) or \
            not re.search(r"if\s+\$prefix\s*==\s*directive_prefix", psrc):
             raise ExtractionError(T, relp, "unknown-directive test has an unexpected shape")
         rows = {}
@@ -274,13 +280,16 @@ end Slicec.Gen
             if not km:
                 raise ExtractionError(T, rel, "implement_attribute_kind_for! not found")
             ty, directive, rep = km.groups()
-            body = parse_from_body(src, T, rel)
+            body = parse_from_body(src, T, rel, ty)
             cm = re.search(r"check_argument_count_is_within\(\s*(\d+)\s*\.\.\s*(\d+|usize::MAX)\s*,", body)
             if not cm:
                 raise ExtractionError(T, rel, "check_argument_count_is_within(a..b, …) not found in parse_from")
             lo = int(cm.group(1))
             hi = None if cm.group(2) == "usize::MAX" else int(cm.group(2))
+            # the literals an argument is compared with: `"X" =>` arms of a match, or `<arg> == "X"` tests of an if / else-if chain
             lits = re.findall(r"\"(\w+)\"\s*=>", body)
+            if ty != "Allow":
+                lits += [x for x in re.findall(r"\b\w+(?:\.as_str\(\))?\s*==\s*\"(\w+)\"", body) if x not in lits]
             has_arg_error = "InvalidAttributeArgument" in body
             if has_arg_error and not lits and ty != "Allow":
                 raise ExtractionError(T, rel, "argument validation not understood")
